@@ -18,7 +18,11 @@ from __future__ import annotations
 import itertools
 from typing import Any
 
-NT_SUPER = {"NTint": ("int",), "NTstr": ("str",), "NTnode": ("node", "N0"), "NTnt": ("nt", "NTint")}
+NT_SUPER = {
+    "NTint": ("int",), "NTstr": ("str",), "NTnode": ("node", "N0"), "NTnt": ("nt", "NTint"),
+    # NewTypes whose supertype is a generic over another NewType
+    "NTseq": ("tvar", ("nt", "NTnode")), "NTopt": ("opt", ("nt", "NTnode"), "typing"), "NTints": ("tvar", ("nt", "NTint")),
+}
 
 PRELUDE = """
 class {P}Color(enum.Enum):
@@ -43,6 +47,9 @@ class {P}Fz(ASTNode):
 {P}NTstr = NewType("{P}NTstr", str)
 {P}NTnode = NewType("{P}NTnode", {P}N0)
 {P}NTnt = NewType("{P}NTnt", {P}NTint)
+{P}NTseq = NewType("{P}NTseq", tuple[{P}NTnode, ...])
+{P}NTopt = NewType("{P}NTopt", Optional[{P}NTnode])
+{P}NTints = NewType("{P}NTints", tuple[{P}NTint, ...])
 """
 
 POSTLUDE = """
@@ -261,7 +268,7 @@ def classify(a) -> str:
 # ---------------------------------------------------------------------------
 ATOMS = [
     ("int",), ("str",), ("bool",), ("float",), ("any",), ("none",), ("enum",), ("lit", ("a", 1, "alpha-beta", 65536)),  # members that CPython caches as singletons and members it does not
-    ("nt", "NTint"), ("nt", "NTnode"), ("nt", "NTnt"), ("node", "N0"), ("node", "N1"), ("node", "Fz"), ("fwd", "L0"),
+    ("nt", "NTint"), ("nt", "NTnode"), ("nt", "NTnt"), ("nt", "NTseq"), ("nt", "NTopt"), ("nt", "NTints"), ("node", "N0"), ("node", "N1"), ("node", "Fz"), ("fwd", "L0"),
 ]
 R0 = [("int",), ("str",), ("none",), ("node", "N0"), ("node", "N1"), ("nt", "NTnode"), ("fwd", "L0")]
 UNARY = [("opt", "typing"), ("opt", "pipe"), ("tvar",), ("tfix1",), ("fset",), ("seq",), ("list",), ("set",)]
